@@ -613,3 +613,8 @@ B("S2.is_collinear_translated", ["C06", "C09"], LINE, "bounded_is_collinear_tran
 B("S4.merge_fragment_spans_fixpoint", ["C09", "C03"], FB, "bounded_merge_fragment_spans_fixpoint", "FragmentBuffer::merge_fragment_spans (abs_fragment_spans + FragmentSpan::merge_recursive)",
   "the returned list is a fix-point: no earlier fragment merges with a later one (with the symmetric Line::merge: no two lines of the output are collinear and touching)",
   "all grids 2x4 and 4x2 (390,625 each) and every 7th 3x3 grid (thorough: all 1,953,125) over {space, -, |, +, _}", timeout=1200, timeout_thorough=7200)
+
+B("S1.contains_point_long_lines", ["C06", "C09", "C03", "C05"], LINE, "bounded_contains_point_long_lines", "Line::contains_point (parry2d Segment::contains_point)",
+  "horizontal / vertical lines: every lattice point of the line is on it and its lattice neighbour beside it is not, at every page position; "
+  "diagonals: the end points are on the line at every page position (interior lattice points of long diagonals: parry is inexact and position dependent, assumed unreachable)",
+  "4 directions x lengths 1..16 cells in half-cell steps then up to 60 cells (thorough 400) x every quarter-unit position along the line x 5 page offsets up to (399,199)")
